@@ -95,6 +95,10 @@ FaultyCheck(n) ==
 
 \* some store call of the check failed (after which the service may not be able to do anything more with the store)
 StoreFaulted(n) == \E i \in DOMAIN Evs(n) : Evs(n)[i].e.ev = "store" /\ (Evs(n)[i].e.err \/ Evs(n)[i].e.cmdFaultHit)
+\* ... at a call other than the write of a new login state: on the ladder that write comes AFTER the removal of the stale
+\* session, so a failure there excuses no missing removal
+StoreFaultedBeforeNewLogin(n) == \E i \in DOMAIN Evs(n) : Evs(n)[i].e.ev = "store" /\ Evs(n)[i].e.op # "SetAuthorizationState"
+                                                          /\ (Evs(n)[i].e.err \/ Evs(n)[i].e.cmdFaultHit)
 
 \* the reads of the presented session that returned tokens
 TokReads(n) == SelectSeq(Ops(n, "GetTokenResponse"), LAMBDA x : x.e.sid = Req(n).cookie /\ Good(x) /\ x.e.res.ex)
@@ -338,7 +342,7 @@ C11RespCauses(n, r) ==
        THEN (IF Outcome(r) = "ok" THEN {"ok-after-failed-refresh"} ELSE {})
             \* the stale session is removed whatever the denial looks like (a removal that was attempted and failed counts: nothing more can be done)
             \* (a refresh that succeeded and was stored, followed by the denial of a later filter of the chain, ends nothing)
-            \cup (IF Outcome(r) # "ok" /\ (e.answer # "ok" \/ Len(w) = 0) /\ Len(Ops(n, "RemoveSession")) = 0 /\ ~StoreFaulted(n)
+            \cup (IF Outcome(r) # "ok" /\ (e.answer # "ok" \/ Len(w) = 0) /\ Len(Ops(n, "RemoveSession")) = 0 /\ ~StoreFaultedBeforeNewLogin(n)
                   THEN {"stale-session-not-removed"} ELSE {})
        ELSE {}
 
@@ -445,7 +449,7 @@ C11OddCauses(n, r) ==
   IF Shaped(n) \/ ~\E i \in DOMAIN Evs(n) : Evs(n)[i].e.ev = "idp" /\ Evs(n)[i].e.grant = "refresh_token" /\ Evs(n)[i].e.answer = "odd" /\ ~Evs(n)[i].e.shaped
   THEN {}
   ELSE (IF Outcome(r) = "ok" THEN {"ok-after-failed-refresh"} ELSE {})
-       \cup (IF Len(Ops(n, "RemoveSession")) = 0 /\ ~StoreFaulted(n) /\ Outcome(r) \notin {"panic", "grpcError", "nilResponse"}
+       \cup (IF Len(Ops(n, "RemoveSession")) = 0 /\ ~StoreFaultedBeforeNewLogin(n) /\ Outcome(r) \notin {"panic", "grpcError", "nilResponse"}
              THEN {"stale-session-not-removed"} ELSE {})
 
 RespViol(n, r) ==
